@@ -146,8 +146,35 @@ fn lock_machine(steps: usize) {
 
 #[kani::proof]
 #[kani::unwind(3)]
+fn c18_lock_state_machine_2steps() {
+    lock_machine(2);
+}
+
+#[kani::proof]
+#[kani::unwind(3)]
 fn c18_lock_state_machine_3steps() {
     lock_machine(3);
+}
+
+/// a failed acquire (I/O error while creating the lock file) leaves the lock free
+#[kani::proof]
+#[kani::unwind(3)]
+fn c18_lock_io_error_then_acquire() {
+    let dir = LockDir::new();
+    let lock = writer_lock();
+    dir.fail_next.store(true, Ordering::Relaxed);
+    let l1 = dir.acquire_lock(&lock);
+    match &l1 {
+        Err(LockError::IoError(_)) => {}
+        _ => panic!("an I/O error must be reported as LockError::IoError"),
+    }
+    std::mem::forget(l1);
+    assert!(!dir.is_held());
+    let l2 = dir.acquire_lock(&lock);
+    assert!(l2.is_ok() && dir.is_held());
+    kani::cover!(dir.creates.load(Ordering::Relaxed) == 1);
+    std::mem::forget(l2);
+    std::mem::forget(dir);
 }
 
 #[kani::proof]
